@@ -358,6 +358,55 @@ func main() {
 		z.a.At(1).Op(DEFBLOCK, o, e).Op(DEFBLOCK, c, e).Op(ENDBLOCK).Op(DEFBLOCK, c, e).At(44).Op(ENDBLOCK).Op(ENDBLOCK).Op(RET)
 		record("hand_err_dupchild.bcb", "hand-assembled", z.desc, z.bytes(), true, "runtime_error")
 	}
+	// ---- C. added later (appended, so that the files above keep their names and bytes):
+	// jumps whose 16-bit operand has its top bit set, over code that would be visible if executed
+	{
+		x := newFile("farfx.bcl", "JUMP of 0x9000 bytes over ONE PRINT pairs: nothing of the skipped code may run")
+		a := &x.a
+		s := x.k(bcfmt.Str("landed"))
+		j := a.Len()
+		a.Op(JUMP, 0)
+		for i := 0; i < 0x9000/2; i++ {
+			a.Op(ONE).Op(PRINT)
+		}
+		a.PatchJump(j, a.Len())
+		a.Op(CONST, s).Op(PRINT).Op(RET)
+		record("hand_farjump_effect.bcb", "hand-assembled", x.desc, x.bytes(), true, "jump_0x9000_over_code")
+	}
+	{
+		x := newFile("farjf.bcl", "JFALSE of 0x8001 bytes taken on a falsey value, then one not taken on a truthy value")
+		a := &x.a
+		s := x.k(bcfmt.Str("after"))
+		a.Op(FALSE)
+		j := a.Len()
+		a.Op(JFALSE, 0)
+		a.Op(POP)
+		for i := 0; i < 0x8000/2; i++ {
+			a.Op(ONE).Op(PRINT)
+		}
+		a.Op(NIL)
+		a.PatchJump(j, a.Len())
+		a.Op(PRINT) // prints false (jump taken: the value stays) 
+		a.Op(TRUE)
+		j = a.Len()
+		a.Op(JFALSE, 0).Op(POP).Op(CONST, s)
+		a.PatchJump(j, a.Len())
+		a.Op(PRINT).Op(RET)
+		record("hand_farjfalse.bcb", "hand-assembled", x.desc, x.bytes(), true, "jfalse_0x8001")
+	}
+	for _, src := range []struct{ file, text string }{
+		{"big_and.bcb", "print false and 1" + strings.Repeat("+1", 17000) + "\nprint 1 and 2" + strings.Repeat("+1", 16500) + "\n"},
+		{"big_or.bcb", "print 7 or 1" + strings.Repeat("+1", 17000) + "\nprint 0 or 2" + strings.Repeat("+1", 16400) + "\n"},
+	} {
+		var out, log bytes.Buffer
+		prog, err := bcl.Parse([]byte(src.text), "big.bcl", bcl.OptOutput(&out), bcl.OptLogger(&log))
+		if err != nil {
+			fmt.Println("SKIP", src.file, err)
+			continue
+		}
+		data, _, _ := sim.DumpProg(prog)
+		record(src.file, "pinned-dump", "short-circuit over a right operand of more than 32768 code bytes (jump operand with the top bit set)", data, true, "pinned_dump", "compiled_jump_over_0x8000")
+	}
 	b, _ := json.MarshalIndent(index, "", " ")
 	os.WriteFile(filepath.Join(outDir, "index.json"), b, 0o644)
 	fmt.Printf("%d corpus files written to %s\n", len(index), outDir)
